@@ -583,6 +583,7 @@ def handle_end_progs(state: TokenizerState) -> Iterator[TokenInfo]:
     if state.in_braces():
         return
 
+    pos = state.pos
     if state.in_fstring() or state.in_colon():
         yield from handle_fstring_progs(state, state.end_progs[-1])
         # else:
@@ -603,8 +604,10 @@ def handle_end_progs(state: TokenizerState) -> Iterator[TokenInfo]:
     ):
         state.end_progs[-1].join_line(state)
         state.pos = state.max
-    # else:
-    #     raise TokenError(f"Invalid string quotes at {state.pos} in {state.line}", (state.lnum, state.pos))
+    elif state.pos == pos:  # a single-quoted string that is neither closed nor continued on this line
+        raise TokenError(
+            f"unterminated string literal (detected at line {state.lnum})", state.end_progs[-1].start
+        )
 
 
 def _tokenize(readline: Callable[[], str]) -> Iterator[TokenInfo]:
